@@ -31,7 +31,7 @@ TECHNIQUE = "runtime monitoring: record/compare of whole mapper runs under injec
 
 def gen_cases(tier, seed):
     rnd = random.Random(f"C20-{seed}")
-    n = 6 if tier == "quick" else 30
+    n = 6 if tier == "quick" else 14
     cases = []
     kinds = ["mm1", "chain2", "fanin2", "mvchain2", "mm1", "chain2"]
     for i in range(n):
